@@ -168,7 +168,7 @@ def label_of(case):
     if k == "cfg":
         return "cfg/%s/%s" % (info["fam"], info["features"])
     if k == "l1k2":
-        return "l1k2/%s/%s" % (info["last"], tclass(info["ty"]))
+        return "l1k2/%s" % tclass(info["ty"])   # k = 1 has the fine-grained loci; the witness shows the two instructions
     return k
 
 
